@@ -131,7 +131,10 @@ def main(argv=None):
         mod.run(run, ctx)
         return run.finish(tier, seed)
 
-    timeout = getattr(mod, "SHARD_TIMEOUT", {}).get(tier, 1500)
+    # wall-clock watchdog per shard (its firing is "inconclusive", never a verdict):
+    # generous floors, several times the wall time measured on a quiet 16-core machine
+    floor = {"quick": 1800, "thorough": 3600}.get(tier, 1800)
+    timeout = max(getattr(mod, "SHARD_TIMEOUT", {}).get(tier, floor), floor)
     tmp = tempfile.mkdtemp(prefix=f"pvm_{a.pid}_", dir=os.environ.get("PVM_TMP"))
 
     def work(i):
